@@ -36,8 +36,15 @@ Definition open_select_cases : list cap_key :=
   [ ("_select", "cases", "field", "none");
     ("_select", "cases", "index", "rlock:f.mutex") ].
 
+(** Second known finding: the reflect.MakeFunc wrapper built by [getFunc] writes the function literal's
+    slot of the DEFINING frame back when a call ends ([getFrame(f, l).data[i] = o], under f's lock) — from
+    whatever goroutine ran the call; the next evaluation of the literal reads that slot without the lock. *)
+Definition open_getfunc_writeback : list cap_key :=
+  [ ("getFunc", "f", "frame-writeback", "lock:f.mutex") ].
+
 Definition row_reviewed (r : cap_row) : bool :=
-  key_mem (key_of r) allowlist || key_mem (key_of r) open_select_cases.
+  key_mem (key_of r) allowlist || key_mem (key_of r) open_select_cases
+  || key_mem (key_of r) open_getfunc_writeback.
 
 Definition captured_writes_reviewed (rows : list cap_row) : bool := forallb row_reviewed rows.
 
@@ -50,3 +57,9 @@ Definition variant_of (rows : list cap_row) : variant :=
   if existsb (fun r => key_mem (key_of r) open_select_cases) rows then Shared else PerExec.
 
 Definition source_variant : variant := variant_of captured_gen.
+
+(** does the source write a function literal's slot back from the goroutine that ran the call? *)
+Definition writeback_of (rows : list cap_row) : bool :=
+  existsb (fun r => key_mem (key_of r) open_getfunc_writeback) rows.
+
+Definition source_writeback : bool := writeback_of captured_gen.
